@@ -535,6 +535,39 @@ def part_derive(tier):
     part.case(('ne', str(a), str(b)))
     if safe_eq(a, b) is not False:
       part.bad('ne:%s|%s' % (a, b), 'validators with different limits compare equal: %s vs %s' % (a, b), {})
+  # a family of validators built from a small grid of limits and declared types: whenever two of them compare equal they
+  # must decide identically on every probe (== may be False for validators that happen to agree, never the reverse)
+  def hex_int(x):
+    return int(str(x), 16)
+
+  fam = []
+  lims = [(10, 20), ('10', '20'), (16, 32), (10.0, 20.0), (10, None), (None, 20), ('10', None)]
+  for lo, hi in lims:
+    for typ in (None, int, float, hex_int):
+      if typ is None and (isinstance(lo, str) or isinstance(hi, str)):
+        continue
+      try:
+        fam.append(('in_range(%r,%r,type=%s)' % (lo, hi, getattr(typ, '__name__', None)), v.in_range(lo, hi, type=typ)))
+      except Exception:  # pylint: disable=broad-except
+        continue
+  for spec in (10, '10', 16, 10.0):
+    for typ in (None, int, hex_int, str):
+      try:
+        fam.append(('equals(%r,type=%s)' % (spec, getattr(typ, '__name__', None)), v.equals(spec, type=typ)))
+      except Exception:  # pylint: disable=broad-except
+        continue
+  for exp, pct in ((100, 10), (100.0, 10), (100, 10.0), (110, 10), (100, 20)):
+    fam.append(('within_percent(%r,%r)' % (exp, pct), v.within_percent(exp, pct)))
+  fprobes = [9, 10, 15, 16, 20, 21, 26, 32, 33, 10.0, 16.0, '10', '16', 'a', 90, 99, 100, 110, 111, 120, 121, None]
+  for (na, a), (nb, b) in itertools.combinations(fam, 2):
+    part.case(('eq-family', na, nb))
+    if safe_eq(a, b) is True:
+      for pv in fprobes:
+        ra, rb = truthy_call(a, pv), truthy_call(b, pv)
+        if ra[0] != rb[0]:
+          part.bad('eq-family:%s|%s' % (na, nb), '%s == %s but they decide differently on %r: %r vs %r' % (na, nb, pv, ra[0], rb[0]),
+                   {'case': 'eq-family'})
+          break
   return part
 
 
